@@ -57,6 +57,20 @@ Call == /\ vis < Len(wire) /\ verdict = "more"
 Next == Send \/ Call
 Spec == Init /\ [][Next]_vars
 
+\* Beyond the listed properties (their schedules are strictly increasing): a spurious wake-up -- the caller calls
+\* again although no new bytes arrived.  SpecA allows it; Idempotent says it changes nothing (same verdict, same
+\* offset, same object state), so SpecA has exactly the states of Spec and every result about schedules
+\* c1 < ... < ck carries over to c1 <= ... <= ck.
+CallAgain == /\ vis = Len(wire) /\ vis > 0 /\ verdict = "more"
+             /\ LET r == P_Call(wire, cont, obj, cfg) IN
+                  /\ obj' = r.st /\ cont' = r.offs /\ verdict' = r.err
+             /\ hist' = Append(hist, Len(wire))
+             /\ UNCHANGED <<wire, vis, cfg, prev, na>>
+NextA == Send \/ Call \/ CallAgain
+SpecA == Init /\ [][NextA]_vars
+Idempotent == (vis = Len(wire) /\ vis > 0 /\ verdict = "more") =>
+                LET r == P_Call(wire, cont, obj, cfg) IN r.err = "more" /\ r.offs = cont /\ r.st = obj
+
 ----------------------------------------------------------------------------
 \* ---- explicit schedules for the replay on the real code.  hist is outside the VIEW and (when ResumeEqFresh holds with
 \* equal internal state) every distinct state is first reached by the one-call schedule, so the record of a state
